@@ -3,9 +3,12 @@
    draws incl. negative randomness; Cm n g gi h hi x r = g^x h^r mod n with negative exponents through the inverse) and what an
    accepted proof pins -- E' = E^(2^T), and (F8, repaired by 291caf1) the two
    square proofs are about E_a_1 / E_b_1 themselves, so sub-proofs cannot be transplanted onto a freely chosen E_?_1.
-   Rejection of edited proofs / other bounds, bases, modulus: correspondence + sweep. *)
+   Soundness core (ClSound.v): the three sigma protocols are SPECIALLY SOUND (two challenge/response triples recomputing to the
+   same commitments give g^dD h^dD1 == E^dc -- with ONE dD for both commitments of the same-secret proof) and accepted proofs
+   are RIGID (same challenge, other responses: a relation between the bases or a collision of the challenge hash).
+   Rejection of edited proofs / other bounds, bases, modulus beyond that: correspondence + sweep. *)
 From ZK Require Import Cl ClArith ClSig ClMore ClConsts ClMask ClGroup ClBoudot.
-From ZK Require Import ClRange.
+From ZK Require Import ClRange ClSound.
 
 Theorem C16_boudot_accepts :
   forall BP p g h n rmin rmax,
@@ -108,3 +111,159 @@ Check (C16_boudot_prove_above_fails :
   forall BP, (0 <= b_l BP + b_t BP)%Z -> forall value c g h n rmin rmax ds p ds',
   (rmax < value)%Z -> boudot_prove BP value c g h n rmin rmax ds <> Ok (p, ds')).
 Print Assumptions C16_boudot_prove_above_fails.
+
+(* special soundness of the same-secret proof: the two commitments are opened by the SAME exponent *)
+Theorem C16_same_secret_special_soundness :
+  forall n : Z, (0 < n)%Z -> forall g1 g1i h1 h1i g2 g2i h2 h2i E Ei F Fi : Z,
+  invert g1 n = Some g1i -> invert h1 n = Some h1i -> invert g2 n = Some g2i -> invert h2 n = Some h2i ->
+  invert E n = Some Ei -> invert F n = Some Fi ->
+  forall p p' : proof_ss,
+  ss_W1 n g1 g1i h1 h1i E Ei p = ss_W1 n g1 g1i h1 h1i E Ei p' ->
+  ss_W2 n g2 g2i h2 h2i F Fi p = ss_W2 n g2 g2i h2 h2i F Fi p' ->
+  Zdiv.eqm n (gp n g1 g1i (ss_d p - ss_d p') * gp n h1 h1i (ss_d1 p - ss_d1 p')) (gp n E Ei (ss_chal p - ss_chal p')) /\
+  Zdiv.eqm n (gp n g2 g2i (ss_d p - ss_d p') * gp n h2 h2i (ss_d2 p - ss_d2 p')) (gp n F Fi (ss_chal p - ss_chal p')).
+Proof. exact same_secret_special_soundness. Qed.
+Check (C16_same_secret_special_soundness :
+  forall n : Z, (0 < n)%Z -> forall g1 g1i h1 h1i g2 g2i h2 h2i E Ei F Fi : Z,
+  invert g1 n = Some g1i -> invert h1 n = Some h1i -> invert g2 n = Some g2i -> invert h2 n = Some h2i ->
+  invert E n = Some Ei -> invert F n = Some Fi ->
+  forall p p' : proof_ss,
+  ss_W1 n g1 g1i h1 h1i E Ei p = ss_W1 n g1 g1i h1 h1i E Ei p' ->
+  ss_W2 n g2 g2i h2 h2i F Fi p = ss_W2 n g2 g2i h2 h2i F Fi p' ->
+  Zdiv.eqm n (gp n g1 g1i (ss_d p - ss_d p') * gp n h1 h1i (ss_d1 p - ss_d1 p')) (gp n E Ei (ss_chal p - ss_chal p')) /\
+  Zdiv.eqm n (gp n g2 g2i (ss_d p - ss_d p') * gp n h2 h2i (ss_d2 p - ss_d2 p')) (gp n F Fi (ss_chal p - ss_chal p'))).
+Print Assumptions C16_same_secret_special_soundness.
+
+(* the commitments ss_W1 / ss_W2 are what the verifier recomputes and hashes *)
+Theorem C16_verify_same_secret_spec :
+  forall n : Z, (0 < n)%Z -> forall g1 g1i h1 h1i g2 g2i h2 h2i E Ei F Fi : Z,
+  invert g1 n = Some g1i -> invert h1 n = Some h1i -> invert g2 n = Some g2i -> invert h2 n = Some h2i ->
+  invert E n = Some Ei -> invert F n = Some Fi ->
+  forall p : proof_ss,
+  verify_same_secret E F g1 h1 g2 h2 n p =
+  Ok (ss_chal p =? hash_int (str_cat [ss_W1 n g1 g1i h1 h1i E Ei p; ss_W2 n g2 g2i h2 h2i F Fi p]))%Z.
+Proof. exact verify_same_secret_spec. Qed.
+Check (C16_verify_same_secret_spec :
+  forall n : Z, (0 < n)%Z -> forall g1 g1i h1 h1i g2 g2i h2 h2i E Ei F Fi : Z,
+  invert g1 n = Some g1i -> invert h1 n = Some h1i -> invert g2 n = Some g2i -> invert h2 n = Some h2i ->
+  invert E n = Some Ei -> invert F n = Some Fi ->
+  forall p : proof_ss,
+  verify_same_secret E F g1 h1 g2 h2 n p =
+  Ok (ss_chal p =? hash_int (str_cat [ss_W1 n g1 g1i h1 h1i E Ei p; ss_W2 n g2 g2i h2 h2i F Fi p]))%Z).
+Print Assumptions C16_verify_same_secret_spec.
+
+(* two accepted proofs, same statement, same challenge: a relation between the bases, or a collision of the challenge hash *)
+Theorem C16_same_secret_rigid :
+  forall n : Z, (0 < n)%Z -> forall g1 g1i h1 h1i g2 g2i h2 h2i E Ei F Fi : Z,
+  invert g1 n = Some g1i -> invert h1 n = Some h1i -> invert g2 n = Some g2i -> invert h2 n = Some h2i ->
+  invert E n = Some Ei -> invert F n = Some Fi ->
+  forall p p' : proof_ss,
+  verify_same_secret E F g1 h1 g2 h2 n p = Ok true -> verify_same_secret E F g1 h1 g2 h2 n p' = Ok true ->
+  ss_chal p = ss_chal p' ->
+  (Zdiv.eqm n (gp n g1 g1i (ss_d p - ss_d p') * gp n h1 h1i (ss_d1 p - ss_d1 p')) 1 /\
+   Zdiv.eqm n (gp n g2 g2i (ss_d p - ss_d p') * gp n h2 h2i (ss_d2 p - ss_d2 p')) 1) \/
+  ([ss_W1 n g1 g1i h1 h1i E Ei p; ss_W2 n g2 g2i h2 h2i F Fi p] <> [ss_W1 n g1 g1i h1 h1i E Ei p'; ss_W2 n g2 g2i h2 h2i F Fi p'] /\
+   hash_int (str_cat [ss_W1 n g1 g1i h1 h1i E Ei p; ss_W2 n g2 g2i h2 h2i F Fi p]) =
+   hash_int (str_cat [ss_W1 n g1 g1i h1 h1i E Ei p'; ss_W2 n g2 g2i h2 h2i F Fi p'])).
+Proof. exact same_secret_rigid. Qed.
+Check (C16_same_secret_rigid :
+  forall n : Z, (0 < n)%Z -> forall g1 g1i h1 h1i g2 g2i h2 h2i E Ei F Fi : Z,
+  invert g1 n = Some g1i -> invert h1 n = Some h1i -> invert g2 n = Some g2i -> invert h2 n = Some h2i ->
+  invert E n = Some Ei -> invert F n = Some Fi ->
+  forall p p' : proof_ss,
+  verify_same_secret E F g1 h1 g2 h2 n p = Ok true -> verify_same_secret E F g1 h1 g2 h2 n p' = Ok true ->
+  ss_chal p = ss_chal p' ->
+  (Zdiv.eqm n (gp n g1 g1i (ss_d p - ss_d p') * gp n h1 h1i (ss_d1 p - ss_d1 p')) 1 /\
+   Zdiv.eqm n (gp n g2 g2i (ss_d p - ss_d p') * gp n h2 h2i (ss_d2 p - ss_d2 p')) 1) \/
+  ([ss_W1 n g1 g1i h1 h1i E Ei p; ss_W2 n g2 g2i h2 h2i F Fi p] <> [ss_W1 n g1 g1i h1 h1i E Ei p'; ss_W2 n g2 g2i h2 h2i F Fi p'] /\
+   hash_int (str_cat [ss_W1 n g1 g1i h1 h1i E Ei p; ss_W2 n g2 g2i h2 h2i F Fi p]) =
+   hash_int (str_cat [ss_W1 n g1 g1i h1 h1i E Ei p'; ss_W2 n g2 g2i h2 h2i F Fi p']))).
+Print Assumptions C16_same_secret_rigid.
+
+(* one response edited by delta and still accepted: h1^delta == 1, or a collision *)
+Theorem C16_same_secret_d1_edit :
+  forall n : Z, (0 < n)%Z -> forall g1 g1i h1 h1i g2 g2i h2 h2i E Ei F Fi : Z,
+  invert g1 n = Some g1i -> invert h1 n = Some h1i -> invert g2 n = Some g2i -> invert h2 n = Some h2i ->
+  invert E n = Some Ei -> invert F n = Some Fi ->
+  forall (p : proof_ss) (delta : Z),
+  verify_same_secret E F g1 h1 g2 h2 n p = Ok true ->
+  verify_same_secret E F g1 h1 g2 h2 n {| ss_chal := ss_chal p; ss_d := ss_d p; ss_d1 := (ss_d1 p + delta)%Z; ss_d2 := ss_d2 p |} = Ok true ->
+  Zdiv.eqm n (gp n h1 h1i delta) 1 \/ (exists a b : list Z, a <> b /\ hash_int (str_cat a) = hash_int (str_cat b)).
+Proof. exact same_secret_d1_edit. Qed.
+Check (C16_same_secret_d1_edit :
+  forall n : Z, (0 < n)%Z -> forall g1 g1i h1 h1i g2 g2i h2 h2i E Ei F Fi : Z,
+  invert g1 n = Some g1i -> invert h1 n = Some h1i -> invert g2 n = Some g2i -> invert h2 n = Some h2i ->
+  invert E n = Some Ei -> invert F n = Some Fi ->
+  forall (p : proof_ss) (delta : Z),
+  verify_same_secret E F g1 h1 g2 h2 n p = Ok true ->
+  verify_same_secret E F g1 h1 g2 h2 n {| ss_chal := ss_chal p; ss_d := ss_d p; ss_d1 := (ss_d1 p + delta)%Z; ss_d2 := ss_d2 p |} = Ok true ->
+  Zdiv.eqm n (gp n h1 h1i delta) 1 \/ (exists a b : list Z, a <> b /\ hash_int (str_cat a) = hash_int (str_cat b))).
+Print Assumptions C16_same_secret_d1_edit.
+
+(* the square proof: F = g^x h^r2 and E = F^x h^r3 with the same x *)
+Theorem C16_square_special_soundness :
+  forall n : Z, (0 < n)%Z -> forall g gi h hi : Z, invert g n = Some gi -> invert h n = Some hi ->
+  forall (p p' : proof_sq) (Ei Fi : Z),
+  sq_E p = sq_E p' -> sq_F p = sq_F p' -> invert (sq_E p) n = Some Ei -> invert (sq_F p) n = Some Fi ->
+  ss_W1 n g gi h hi (sq_F p) Fi (sq_ss p) = ss_W1 n g gi h hi (sq_F p) Fi (sq_ss p') ->
+  ss_W2 n (sq_F p) Fi h hi (sq_E p) Ei (sq_ss p) = ss_W2 n (sq_F p) Fi h hi (sq_E p) Ei (sq_ss p') ->
+  let dx := (ss_d (sq_ss p) - ss_d (sq_ss p'))%Z in
+  let dc := (ss_chal (sq_ss p) - ss_chal (sq_ss p'))%Z in
+  Zdiv.eqm n (gp n g gi dx * gp n h hi (ss_d1 (sq_ss p) - ss_d1 (sq_ss p'))) (gp n (sq_F p) Fi dc) /\
+  Zdiv.eqm n (gp n (sq_F p) Fi dx * gp n h hi (ss_d2 (sq_ss p) - ss_d2 (sq_ss p'))) (gp n (sq_E p) Ei dc).
+Proof. exact square_special_soundness. Qed.
+Check (C16_square_special_soundness :
+  forall n : Z, (0 < n)%Z -> forall g gi h hi : Z, invert g n = Some gi -> invert h n = Some hi ->
+  forall (p p' : proof_sq) (Ei Fi : Z),
+  sq_E p = sq_E p' -> sq_F p = sq_F p' -> invert (sq_E p) n = Some Ei -> invert (sq_F p) n = Some Fi ->
+  ss_W1 n g gi h hi (sq_F p) Fi (sq_ss p) = ss_W1 n g gi h hi (sq_F p) Fi (sq_ss p') ->
+  ss_W2 n (sq_F p) Fi h hi (sq_E p) Ei (sq_ss p) = ss_W2 n (sq_F p) Fi h hi (sq_E p) Ei (sq_ss p') ->
+  let dx := (ss_d (sq_ss p) - ss_d (sq_ss p'))%Z in
+  let dc := (ss_chal (sq_ss p) - ss_chal (sq_ss p'))%Z in
+  Zdiv.eqm n (gp n g gi dx * gp n h hi (ss_d1 (sq_ss p) - ss_d1 (sq_ss p'))) (gp n (sq_F p) Fi dc) /\
+  Zdiv.eqm n (gp n (sq_F p) Fi dx * gp n h hi (ss_d2 (sq_ss p) - ss_d2 (sq_ss p'))) (gp n (sq_E p) Ei dc)).
+Print Assumptions C16_square_special_soundness.
+
+Theorem C16_large_interval_special_soundness :
+  forall n : Z, (0 < n)%Z -> forall g gi h hi E Ei : Z, invert g n = Some gi -> invert h n = Some hi -> invert E n = Some Ei ->
+  forall (BP : bparams) (p p' : proof_li),
+  li_W n g gi h hi E Ei BP p = li_W n g gi h hi E Ei BP p' ->
+  Zdiv.eqm n (gp n g gi (li_D1 p - li_D1 p') * gp n h hi (li_D2 p - li_D2 p')) (gp n E Ei (li_c BP p - li_c BP p')).
+Proof. exact large_interval_special_soundness. Qed.
+Check (C16_large_interval_special_soundness :
+  forall n : Z, (0 < n)%Z -> forall g gi h hi E Ei : Z, invert g n = Some gi -> invert h n = Some hi -> invert E n = Some Ei ->
+  forall (BP : bparams) (p p' : proof_li),
+  li_W n g gi h hi E Ei BP p = li_W n g gi h hi E Ei BP p' ->
+  Zdiv.eqm n (gp n g gi (li_D1 p - li_D1 p') * gp n h hi (li_D2 p - li_D2 p')) (gp n E Ei (li_c BP p - li_c BP p'))).
+Print Assumptions C16_large_interval_special_soundness.
+
+Theorem C16_large_interval_rigid :
+  forall n : Z, (0 < n)%Z -> forall g gi h hi E Ei : Z, invert g n = Some gi -> invert h n = Some hi -> invert E n = Some Ei ->
+  forall (BP : bparams) (p p' : proof_li) (b T : Z),
+  verify_large_interval BP p E g h n b T = Ok true -> verify_large_interval BP p' E g h n b T = Ok true ->
+  li_C p = li_C p' ->
+  Zdiv.eqm n (gp n g gi (li_D1 p - li_D1 p') * gp n h hi (li_D2 p - li_D2 p')) 1 \/
+  (li_W n g gi h hi E Ei BP p <> li_W n g gi h hi E Ei BP p' /\
+   hash_int (to_string (li_W n g gi h hi E Ei BP p)) = hash_int (to_string (li_W n g gi h hi E Ei BP p'))).
+Proof. exact large_interval_rigid. Qed.
+Check (C16_large_interval_rigid :
+  forall n : Z, (0 < n)%Z -> forall g gi h hi E Ei : Z, invert g n = Some gi -> invert h n = Some hi -> invert E n = Some Ei ->
+  forall (BP : bparams) (p p' : proof_li) (b T : Z),
+  verify_large_interval BP p E g h n b T = Ok true -> verify_large_interval BP p' E g h n b T = Ok true ->
+  li_C p = li_C p' ->
+  Zdiv.eqm n (gp n g gi (li_D1 p - li_D1 p') * gp n h hi (li_D2 p - li_D2 p')) 1 \/
+  (li_W n g gi h hi E Ei BP p <> li_W n g gi h hi E Ei BP p' /\
+   hash_int (to_string (li_W n g gi h hi E Ei BP p)) = hash_int (to_string (li_W n g gi h hi E Ei BP p')))).
+Print Assumptions C16_large_interval_rigid.
+
+(* an accepted larger-interval proof has its first response inside [c b, 2^T (2^(t+l) b - 1)] *)
+Theorem C16_large_interval_accepts_bounds :
+  forall n : Z, (0 < n)%Z -> forall g gi h hi E Ei : Z, invert g n = Some gi -> invert h n = Some hi -> invert E n = Some Ei ->
+  forall (BP : bparams) (p : proof_li) (b T : Z),
+  verify_large_interval BP p E g h n b T = Ok true -> (li_c BP p * b <= li_D1 p <= li_upper BP T b)%Z.
+Proof. exact large_interval_accepts_bounds. Qed.
+Check (C16_large_interval_accepts_bounds :
+  forall n : Z, (0 < n)%Z -> forall g gi h hi E Ei : Z, invert g n = Some gi -> invert h n = Some hi -> invert E n = Some Ei ->
+  forall (BP : bparams) (p : proof_li) (b T : Z),
+  verify_large_interval BP p E g h n b T = Ok true -> (li_c BP p * b <= li_D1 p <= li_upper BP T b)%Z).
+Print Assumptions C16_large_interval_accepts_bounds.
